@@ -254,7 +254,8 @@ impl System for Sys {
         // the uplink counter and ADR counter cannot influence downlink acceptance (fcnt_up is
         // far from exhaustion in these runs), so they are dropped from the key
         if let VerifMacState::Joined(ref mut j) = s.state {
-            j.fcnt_up = 0;
+            // (kept next to exhaustion, where accepting a downlink ends in `SessionExpired`)
+            j.fcnt_up = if j.fcnt_up >= 0xFFFF_FFF0 { j.fcnt_up } else { 0 };
             j.adr_ack_cnt = 0;
         }
         s.data_rate = 0;
@@ -432,7 +433,8 @@ impl System for SysC {
     fn key(&self) -> Self::Key {
         let mut s = self.core.snap();
         if let VerifMacState::Joined(ref mut j) = s.state {
-            j.fcnt_up = 0;
+            // (kept next to exhaustion, where accepting a downlink ends in `SessionExpired`)
+            j.fcnt_up = if j.fcnt_up >= 0xFFFF_FFF0 { j.fcnt_up } else { 0 };
             j.adr_ack_cnt = 0;
         }
         s.data_rate = 0;
@@ -529,6 +531,16 @@ fn cfgs(th: bool) -> Vec<DevCfg> {
         for s in &starts {
             let mut c = DevCfg::abp(r);
             c.fcnt_down = *s;
+            v.push(c);
+        }
+    }
+    // the uplink counter next to exhaustion: an accepted downlink is answered with `SessionExpired`, it is still
+    // accepted exactly once
+    for fu in [0xFFFF_FFFEu32, 0xFFFF_FFFF] {
+        for fd in [None, Some(Some(0xFFFE))] {
+            let mut c = DevCfg::abp("EU868");
+            c.fcnt_up = Some(fu);
+            c.fcnt_down = fd;
             v.push(c);
         }
     }
@@ -641,7 +653,7 @@ pub fn run(tier: Tier, replay: Option<&str>) {
         ],
         "evaluations": ctx.evals(),
         "distinct_nontrivial": states,
-        "rule": "part (a): real next_fcnt_down (hook wrapper) for all 65536 wire values x every `last` in None + [b-W,b+W] around b in {0,0x10000,0x7FFFFFFF,0x80000000,0xFFFF0000,2^32-1} + a stride over the whole range, compared with the u64 specification rule; part (b): BFS over histories of whole uplink transactions on the real nb device, each delivering one frame of the alphabet (fresh +1/+2/+16384/+16385/+65536, same counter, older, replays of the last two accepted frames, forged MIC, other session, MIC under N+-65536, uplink-typed, port 0, at-limit and over-limit sizes) in RX1 or RX2, from sessions whose downlink counter starts at epoch boundaries; part (c): the same on the async device in Class C (idle rxc_listen with one or two receptions, receptions while waiting for RX1 / RX2, followed by a Class A downlink); part (d): every region x every uplink data rate: frames whose MACPayload is exactly the regional limit of the RX1 / RX2 data rate (with and without FOpts) and one byte above it, histories of two transactions; states = distinct (device snapshot minus uplink/ADR counters, reference counter, last two accepted frames)",
+        "rule": "part (a): real next_fcnt_down (hook wrapper) for all 65536 wire values x every `last` in None + [b-W,b+W] around b in {0,0x10000,0x7FFFFFFF,0x80000000,0xFFFF0000,2^32-1} + a stride over the whole range, compared with the u64 specification rule; part (b): BFS over histories of whole uplink transactions on the real nb device, each delivering one frame of the alphabet (fresh +1/+2/+16384/+16385/+65536, same counter, older, replays of the last two accepted frames, forged MIC, other session, MIC under N+-65536, uplink-typed, port 0, at-limit and over-limit sizes) in RX1 or RX2, from sessions whose downlink counter starts at epoch boundaries (and whose uplink counter is far from / one step from / at exhaustion); part (c): the same on the async device in Class C (idle rxc_listen with one or two receptions, receptions while waiting for RX1 / RX2, followed by a Class A downlink); part (d): every region x every uplink data rate: frames whose MACPayload is exactly the regional limit of the RX1 / RX2 data rate (with and without FOpts) and one byte above it, histories of two transactions; states = distinct (device snapshot minus uplink/ADR counters, reference counter, last two accepted frames)",
         "arith_last_values": n_last,
         "arith_pairs": n_last * 65536,
         "arith_accepting_pairs": arith_accepts,
